@@ -249,6 +249,7 @@ def run(repo, res, tier):
     res.rule("T8-ANGLES", "the angle test of translate_rotate accepts exactly [-2pi, 2pi], ends included (evaluated)", 6)
     from . import c05ev as _c05ev
 
+    _c05ev.matrix_rule(repo, res)
     _c05ev.angle_domain_rule(repo, res)
     res.rule("T7-DERIVED", "spatial data derived from what translate_rotate moves (occupancy sets, initial occupancy, polygons, vertices, spatial index) is refreshed by it", 8)
     from . import c11
@@ -261,84 +262,10 @@ def run(repo, res, tier):
             res.bad("T7-DERIVED", inst, Finding("T7-DERIVED", f_[0], f_[1], f_[2], "the object's own coordinates move but the stored %s does not: part of the object stays at the old pose" % cache_.name, qualname=fk_.name))
     eff = Effects(repo)
 
-    # ------------------------------------------------------------ T1
+    # ------------------------------------------------------------ T1: decided by evaluation (c05ev.matrix_rule, above): the
+    # matrices are evaluated on atoms and compared entry by entry with the rigid motion; the structural reading of array
+    # displays with a (c, -s; s, c) block that stood here was removed when round 5 built the matrices by index assignment
     tmod = repo.mod(TR)
-    n_blocks = 0
-    for fname, fn in tmod.functions.items():
-        rd = ReachingDefs(fn)
-        for n in walk_no_nested(fn):
-            if not (isinstance(n, ast.List) and len(n.elts) >= 2 and all(isinstance(r, ast.List) and len(r.elts) >= 2 for r in n.elts[:2])):
-                continue
-            r0, r1 = n.elts[0].elts, n.elts[1].elts
-            if not (isinstance(r0[1], ast.UnaryOp) and isinstance(r0[1].op, ast.USub)):
-                continue  # not a rotation block (e.g. the translation matrix)
-            c0, s0, s1, c1 = r0[0], r0[1].operand, r1[0], r1[1]
-            n_blocks += 1
-            inst = "%s: rotation block [[%s, -%s], [%s, %s]]" % (fname, norm(c0), norm(s0), norm(s1), norm(c1))
-            shape_ok = norm(c0) == norm(c1) and norm(s0) == norm(s1)
-            res.check("T1-MATRIX", inst + " has the form (c,-s;s,c)", shape_ok, tmod, n, inst, "the 2x2 block is not of the form (c, -s; s, c)", qualname=fname)
-            if not shape_ok or not isinstance(c0, ast.Name) or not isinstance(s0, ast.Name):
-                continue
-            angle_params = [a.arg for a in fn.args.args if "angle" in a.arg]
-            if len(angle_params) != 1:
-                raise AnalysisError("%s: angle parameter not identified" % fname)
-            ang = angle_params[0]
-            cdefs = [d for d in rd.defs(c0.id, n)]
-            sdefs = [d for d in rd.defs(s0.id, n)]
-            # pair the definitions by the block (branch) they are made in
-            for cd in cdefs:
-                blk = tmod.parent.get(cd.stmt)
-                mates = [sd for sd in sdefs if tmod.parent.get(sd.stmt) is blk and _same_branch(tmod, cd.stmt, sd.stmt)]
-                if len(mates) != 1:
-                    raise AnalysisError("%s: cannot pair the definitions of %s and %s" % (fname, c0.id, s0.id))
-                sd = mates[0]
-                ctext, stext = norm(cd.node), norm(sd.node)
-                exact = ctext in ("math.cos(%s)" % ang, "np.cos(%s)" % ang, "numpy.cos(%s)" % ang) and stext in ("math.sin(%s)" % ang, "np.sin(%s)" % ang, "numpy.sin(%s)" % ang)
-                ident = False
-                if isinstance(cd.node, ast.Constant) and isinstance(sd.node, ast.Constant) and float(cd.node.value) == 1.0 and float(sd.node.value) == 0.0:
-                    g = dominating_guards(tmod, cd.stmt, stop=fn)
-                    ident = any(pol and norm(t) in ("%s == 0" % ang, "%s == 0.0" % ang, "0 == %s" % ang) for t, pol in g)
-                res.check(
-                    "T1-MATRIX",
-                    "%s: (%s, %s) := (%s, %s)" % (fname, c0.id, s0.id, ctext, stext),
-                    exact or ident,
-                    tmod,
-                    cd.stmt,
-                    "%s: %s = %s, %s = %s" % (fname, c0.id, ctext, s0.id, stext),
-                    "the rotation entries are not (cos, sin) of the angle: the matrix is not orthogonal, lengths and areas change (approximation branch)",
-                    qualname=fname,
-                )
-    if n_blocks < 2:
-        raise AnalysisError("fewer than 2 rotation blocks found in geometry/transform.py")
-    # every value a matrix function returns contains its rotation block (no path that skips the rotation), except under
-    # an exact `angle == 0` test
-    for fname, fn in tmod.functions.items():
-        blocks = [n for n in walk_no_nested(fn) if isinstance(n, ast.List) and len(n.elts) >= 2 and all(isinstance(r, ast.List) and len(r.elts) >= 2 for r in n.elts[:2]) and isinstance(n.elts[0].elts[1], ast.UnaryOp) and isinstance(n.elts[0].elts[1].op, ast.USub)]
-        if not blocks:
-            continue
-        rd = ReachingDefs(fn)
-        angle_params = [a.arg for a in fn.args.args if "angle" in a.arg]
-        ang = angle_params[0] if angle_params else "angle"
-
-        def uses_block(e, at, depth=0):
-            if any(x is b for b in blocks for x in ast.walk(e)):
-                return True
-            if depth > 6:
-                return False
-            for nm in [x for x in ast.walk(e) if isinstance(x, ast.Name) and isinstance(x.ctx, ast.Load)]:
-                ds = rd.defs(nm.id, at)
-                if ds and all(d.kind == "assign" and d.node is not None and uses_block(d.node, d.stmt, depth + 1) for d in ds):
-                    return True
-            return False
-
-        for r in walk_no_nested(fn):
-            if not (isinstance(r, ast.Return) and r.value is not None):
-                continue
-            ok = uses_block(r.value, r)
-            if not ok:
-                g = dominating_guards(tmod, r, stop=fn)
-                ok = any(pol and norm(t) in ("%s == 0" % ang, "%s == 0.0" % ang, "0 == %s" % ang) for t, pol in g)
-            res.check("T1-MATRIX", "%s: returned matrix contains the rotation block" % fname, ok, tmod, r, "%s: %s" % (fname, norm(r)[:80]), "a matrix without the rotation is returned for some angles (not only for angle == 0 exactly): small rotations are dropped while orientations still change", qualname=fname)
 
     # ------------------------------------------------------------ T3 on the containers: decided by evaluation
     from . import c05ev
